@@ -393,7 +393,19 @@ class Series:
         return Series(np_._sorted(best))
 
     def argmin(self): return np_.f_argmin(self.v)
+    def argmax(self): return np_.f_argmax(self.v)
     def idxmin(self): return self.index.l[np_.f_argmin(self.v)]
+    def idxmax(self): return self.index.l[np_.f_argmax(self.v)]
+    def head(self, n=5): return self._take(list(range(len(self.v)))[:n])
+    def tail(self, n=5): return self._take(list(range(len(self.v)))[-n:] if n else [])
+    def items(self): return iter(list(zip(self.index.l, self.v)))
+    def median(self, **k):
+        v = self._valid()
+        return nan if not v else np_.f_percentile(v, 50)
+    def cumsum(self, **k): return Series(np_.f_cumsum(self.v).d, self.index, self.name)
+    def nlargest(self, n=5): return self.sort_values(ascending=False).head(n)
+    def nsmallest(self, n=5): return self.sort_values().head(n)
+    def between(self, lo, hi): return (self >= lo) & (self <= hi)
 
     def sort_values(self, ascending=True, **k):
         order = np_._insertion_order(self.v)
@@ -813,6 +825,19 @@ class DataFrame:
         raise ShimGap('DataFrame.astype(non-dict)')
 
     def to_string(self, index=True, **k): return '<frame>'
+    def head(self, n=5): return self._take(list(range(len(self.index)))[:n])
+    def tail(self, n=5): return self._take(list(range(len(self.index)))[-n:] if n else [])
+
+    def iterrows(self):
+        for i, l in enumerate(self.index.l):
+            yield l, Series([self.cols[c][i] for c in self.cols], Index(list(self.cols)))
+
+    def itertuples(self, index=True, name=None):
+        for i, l in enumerate(self.index.l):
+            row = tuple(self.cols[c][i] for c in self.cols)
+            yield ((l,) + row) if index else row
+
+    def items(self): return iter([(c, self._series(c)) for c in self.cols])
 
     def __deepcopy__(self, memo):
         out = DataFrame({c: list(v) for c, v in self.cols.items()}, Index(list(self.index.l)))
